@@ -27,10 +27,9 @@ ASSUMPTIONS = ['after a timeout the abandoned student thread is joined (<= 3 s) 
                'the sys.modules baseline is taken after one warm-up execution of the benign modes so that lazy imports by pedal '
                'itself are not counted',
                'nested executions (an instructor helper installed with mock_function that calls student code while a run is active) are '
-               'generated with an unthreaded outer execution and without injected faults (the inner call may be threaded and time out, then '
-               'without a tracer: one tracing session entered from two threads is outside what the tracer classes support); '
-               'an outer execution that is itself threaded while a nested one is active is not generated: the property lists nested '
-               'imports, the nested call is an extension taken from a seeded change']
+               'generated without injected faults; when one of the two runs out of time (outer threaded, inner threaded or both) no tracer is '
+               'used: one tracing session entered from two threads is outside what the tracer classes support. The property lists nested '
+               'imports; the nested call is an extension taken from seeded changes']
 MIN_NONTRIVIAL = {'quick': 30, 'thorough': 30}
 
 HELPER = 'def helper_value():\n    return 7\nprint("helper loaded")\n'
@@ -68,6 +67,14 @@ FAULTS = ['append_output', '_capture_exception']
 
 # -------------------------------------------------------------------------------------------------------
 # child side
+
+def _ambient_a(frame, event, arg):
+    return None
+
+
+def _ambient_b(frame, event, arg):
+    return None
+
 
 class ChildState:
     def __init__(self):
@@ -129,6 +136,8 @@ class ChildState:
             cell = 'C05|trace-not-restored'
             if self.__dict__.get('blocked_under_coverage') and 'coverage' in type(sys.gettrace()).__module__:
                 cell += '|coverage-collector-of-blocked-thread'
+            elif self.base_trace is not None and sys.gettrace() is None and getattr(self.sb, '_tracer_style', '') == 'coverage':
+                cell += '|coverage-drops-ambient-trace'
             viol.append((cell, 'after %s: sys.gettrace() is %r' % (what, sys.gettrace())))
             sys.settrace(self.base_trace)
         added = sorted(set(sys.modules) - set(self.base_modules))
@@ -202,11 +211,13 @@ class ChildState:
                 elif entry == 'nested':
                     # an instructor helper (mock_function) that itself calls student code on the same sandbox while the outer run is active
                     # (same thread: nested executions that each start their own timeout thread are not generated, see ASSUMPTIONS)
-                    sb.threaded = False
-                    inner_threaded = mode in ('busy-loop', 'block-forever')     # the inner call gets its own thread and runs out of time
-                    if inner_threaded:
+                    timing_out = mode in ('busy-loop', 'block-forever')
+                    outer_threaded = bool(op.get('outer_threaded')) and timing_out      # the outer run is the one that runs out of time
+                    sb.threaded = outer_threaded
+                    inner_threaded = timing_out and (not outer_threaded or bool(op.get('inner_threaded')))
+                    if timing_out:
                         sb.tracer_style = 'none'     # two threads inside one tracing session: not generated (see ASSUMPTIONS)
-                    what = '%s(%s, outer threaded=False, inner threaded=%s, tracer=%s)' % (entry, mode, inner_threaded, op['tracer'])
+                    what = '%s(%s, outer threaded=%s, inner threaded=%s, tracer=%s)' % (entry, mode, outer_threaded, inner_threaded, sb.tracer_style)
                     self.nested_mismatch = None
 
                     def ask_inner(m):
@@ -217,7 +228,8 @@ class ChildState:
                         try:
                             return sb.call('finish', m, threaded=inner_threaded)
                         finally:
-                            if snap() != before:
+                            # (when the outer run is the one that ran out of time, it has been torn down meanwhile: nothing to compare)
+                            if snap() != before and not outer_threaded:
                                 self.nested_mismatch = 'stdout/sleep/stack depths/module table before the inner call %r, after it %r' % (before, snap())
                     sb.mock_function('ask_inner', ask_inner)
                     try:
@@ -236,6 +248,11 @@ class ChildState:
                 (C.allow_real_io if op['allow'] else C.block_real_io)()
             elif kind == 'tracer':
                 sb.tracer_style = op['style']
+            elif kind == 'ambient_trace':
+                fn = [None, _ambient_a, _ambient_b][op['which']]
+                sys.settrace(fn)
+                self.base_trace = fn
+                what = 'ambient_trace(%d)' % op['which']
             elif kind == 'module_rule':
                 rule = op['rule']
                 if rule == 'block-time':
@@ -262,6 +279,9 @@ class ChildState:
             for name in FAULTS:
                 sb.__dict__.pop(name, None)
         self.quiesce()
+        if kind == 'exec' and op.get('mode') == 'recursion' and self.base_trace is not None and sys.gettrace() is None:
+            # CPython itself removes a Python-level trace function that fails, and at the recursion limit calling it fails: not pedal's doing
+            self.base_trace = None
         viol = self.check('%s [%s]' % (what, outcome))
         if kind == 'exec' and getattr(self, 'nested_mismatch', None):
             viol.append(('C05|nested-call-did-not-restore-outer-state', 'during %s: %s' % (what, self.nested_mismatch)))
@@ -363,11 +383,13 @@ class Stepper:
     def op_strategy(self):
         ex = st.fixed_dictionaries({'op': st.just('exec'), 'entry': st.sampled_from(ENTRIES), 'mode': st.sampled_from(MODES),
                                     'threaded': st.booleans(), 'tracer': st.sampled_from(['none', 'none', 'native', 'calls', 'coverage'])},
-                                   optional={'fault': st.sampled_from(FAULTS)})
+                                   optional={'fault': st.sampled_from(FAULTS), 'outer_threaded': st.booleans(), 'inner_threaded': st.booleans()})
         return st.one_of(ex, ex, ex, ex, st.just({'op': 'clear_sandbox'}),
                          st.fixed_dictionaries({'op': st.just('real_io'), 'allow': st.booleans()}),
                          st.fixed_dictionaries({'op': st.just('tracer'), 'style': st.sampled_from(['none', 'native', 'calls', 'coverage'])}),
                          # instructor-side module rules that touch the very things the sandbox borrows
+                         # the grader itself runs under a trace function (a debugger, its own coverage measurement), which may change between executions
+                         st.fixed_dictionaries({'op': st.just('ambient_trace'), 'which': st.sampled_from([0, 1, 1, 2])}),
                          st.fixed_dictionaries({'op': st.just('module_rule'), 'rule': st.sampled_from(['block-time', 'mock-time-without-sleep', 'block-sys', 'mock-io', 'clear', 'block-real-sys', 'exec-globals-as-data'])}))
 
     def apply(self, op):
